@@ -425,6 +425,8 @@ class ConcHarness:
             openers = {op.task for op in w.net.ledger if op.kind.startswith("connect") and op.tr in open_now}
             base["orphan_opened_by_victim"] = vname in openers
         base["write_cancelled"] = any(op.kind == "write" and op.state == "cancelled" for op in w.net.ledger)
+        if self.trace:
+            base["trace"] = True        # the requests carry a suspending trace callback (extra cancellation points inside Trace)
         base["pool_timeout_race"] = any(isinstance(c["result"], tuple) and c["result"][0] == "exc" and isinstance(c["result"][1], httpcore.PoolTimeout)
                                         for c in w.callers)
         desc = f"ct={self.ct} callers={self.callers} N={self.max_connections} trigger={trig} site={base.get('site')} events={w.events_log[-25:]}"
